@@ -77,76 +77,25 @@ func RuleF7(c *Ctx) {
 	facts := 0
 	count := func() { facts++ }
 
-	// (a) AppendMessage
-	if fn := c.P.Fn("common", "Transcript", "AppendMessage"); fn == nil {
-		c.Unresolved("F7", "common.(*Transcript).AppendMessage")
-	} else {
-		c.Saw(core.FnName(fn))
-		ws := findCalls(fn, staticIs("bytes", "Buffer", "Write"))
-		if len(ws) != 2 {
-			c.Bad("F7", "AppendMessage:two-writes", fn.Pos(), fmt.Sprintf("AppendMessage must write label then message into the pending buffer; found %d buffer writes", len(ws)))
-		} else {
-			ok := true
-			for _, w := range ws {
-				if _, plain := w.(*ssa.Call); !plain || !core.PostDominatesEntry(fn, w) {
-					ok = false
-				}
-				if !isLoadOfField(w.Common().Args[0], "t", "buff") {
-					ok = false
-				}
-			}
-			c.Check(ok, "F7", "AppendMessage:unconditional", ws[0].Pos(), "a write into the pending buffer is conditional (e.g. on the buffer length) or does not target t.buff: appends can be dropped", "both writes post-dominate entry and target t.buff")
-			count()
-			var lw, mw ssa.CallInstruction
-			for _, w := range ws {
-				switch core.PathOf(w.Common().Args[1]) {
-				case "p:label":
-					lw = w
-				case "p:message":
-					mw = w
-				}
-			}
-			if c.Check(lw != nil && mw != nil, "F7", "AppendMessage:whole-parameters", fn.Pos(), "the buffer writes do not pass the label and message parameters themselves (truncation or substitution)", "arguments are the parameters label and message") {
-				c.f7order(fn, lw, mw, "label before message")
-				count()
-			}
-			count()
-		}
-	}
-
-	// DomainSep: one unconditional write of the label
-	if fn := c.P.Fn("common", "Transcript", "DomainSep"); fn == nil {
-		c.Unresolved("F7", "common.(*Transcript).DomainSep")
-	} else {
-		c.Saw(core.FnName(fn))
-		if w := c.f7one(fn, "buff.Write(label)", staticIs("bytes", "Buffer", "Write")); w != nil {
-			c.Check(core.PathOf(w.Common().Args[1]) == "p:label" && isLoadOfField(w.Common().Args[0], "t", "buff"), "F7", "DomainSep:whole-label", w.Pos(), "DomainSep does not append its label parameter to t.buff", "argument is the parameter label")
-			count()
-		}
-	}
+	// (a) what each method does to the logical stream (hash state, then pending buffer), on every path,
+	// with helper methods interpreted in place
+	facts += c.strmFacts()
 
 	// (b) ChallengeScalar
 	if fn := c.P.Fn("common", "Transcript", "ChallengeScalar"); fn == nil {
 		c.Unresolved("F7", "common.(*Transcript).ChallengeScalar")
 	} else {
 		c.Saw(core.FnName(fn))
-		ds := c.f7one(fn, "DomainSep(label)", staticIs("/common", "Transcript", "DomainSep"))
-		sw := c.f7one(fn, "state.Write(pending)", invokeIs("Write"))
-		br := c.f7one(fn, "buff.Reset()", staticIs("bytes", "Buffer", "Reset"))
 		sum := c.f7one(fn, "state.Sum", invokeIs("Sum"))
 		sr := c.f7one(fn, "state.Reset()", invokeIs("Reset"))
 		dec := c.f7one(fn, "fr.SetBytesLE(digest)", staticIs("/fr", "Element", "SetBytesLE"))
 		as := c.f7one(fn, "AppendScalar(challenge,label)", staticIs("/common", "Transcript", "AppendScalar"))
-		c.f7order(fn, ds, sw, "DomainSep(label) before state.Write")
-		c.f7order(fn, sw, sum, "state.Write(pending) before state.Sum")
-		c.f7order(fn, sw, br, "state.Write(pending) before buff.Reset")
 		c.f7order(fn, sum, sr, "state.Sum before state.Reset")
-		c.f7order(fn, br, as, "buff.Reset before re-absorbing the challenge")
 		c.f7order(fn, sr, as, "state.Reset before re-absorbing the challenge")
 		c.f7order(fn, sum, dec, "digest before decoding")
 		c.f7order(fn, dec, as, "decode before re-absorbing")
-		facts += 8
-		if ds != nil && sw != nil && sum != nil && sr != nil && dec != nil && as != nil && br != nil {
+		facts += 4
+		if sum != nil && sr != nil && dec != nil && as != nil {
 			ok := true
 			var why []string
 			req := func(cond bool, msg string) {
@@ -155,15 +104,6 @@ func RuleF7(c *Ctx) {
 					why = append(why, msg)
 				}
 			}
-			req(core.PathOf(ds.Common().Args[1]) == "p:label", "DomainSep is not given the label parameter")
-			// state.Write receives buff.Bytes() of t.buff, on t.state
-			req(isLoadOfField(sw.Common().Value, "t", "state"), "Write is not on t.state")
-			if bc, isCall := sw.Common().Args[0].(*ssa.Call); isCall && core.IsMethod(core.Callee(bc.Common()), "bytes", "Buffer", "Bytes") {
-				req(isLoadOfField(bc.Call.Args[0], "t", "buff"), "hashed bytes are not those of t.buff")
-			} else {
-				req(false, "state.Write does not receive t.buff.Bytes() (the whole pending buffer)")
-			}
-			req(isLoadOfField(br.Common().Args[0], "t", "buff"), "Reset is not on t.buff")
 			req(isLoadOfField(sum.Common().Value, "t", "state") && isLoadOfField(sr.Common().Value, "t", "state"), "Sum/Reset not on t.state")
 			// decode: receiver is a local cell, argument is the Sum result
 			cell, isAlloc := dec.Common().Args[0].(*ssa.Alloc)
@@ -191,34 +131,6 @@ func RuleF7(c *Ctx) {
 		n := len(findCalls(fn, staticIs("/fr", "Element", "SetBytesLECanonical"))) + len(findCalls(fn, staticIs("/fr", "Element", "SetBytes")))
 		c.Check(n == 0, "F7", "ChallengeScalar:reducing-LE-decoder", fn.Pos(), "the digest must be reduced little-endian (SetBytesLE), not decoded big-endian or rejected when >= r", "only SetBytesLE is applied")
 		count()
-	}
-
-	// (c) canonical encodings
-	if fn := c.P.Fn("common", "Transcript", "AppendScalar"); fn == nil {
-		c.Unresolved("F7", "common.(*Transcript).AppendScalar")
-	} else {
-		c.Saw(core.FnName(fn))
-		enc := c.f7one(fn, "scalar.BytesLE()", staticIs("/fr", "Element", "BytesLE"))
-		am := c.f7one(fn, "AppendMessage", staticIs("/common", "Transcript", "AppendMessage"))
-		if enc != nil && am != nil {
-			ok := core.PathOf(enc.Common().Args[0]) == "p:scalar" && core.PathOf(am.Common().Args[2]) == "p:label" &&
-				core.FlowsTo(enc.(ssa.Value), am.Common().Args[1], nil) && wholeSlice(am.Common().Args[1])
-			c.Check(ok, "F7", "AppendScalar:canonical-LE", am.Pos(), "AppendScalar does not absorb the whole BytesLE() encoding of its scalar under its label", "message = scalar.BytesLE()[:]", "label = parameter")
-			count()
-		}
-	}
-	if fn := c.P.Fn("common", "Transcript", "AppendPoint"); fn == nil {
-		c.Unresolved("F7", "common.(*Transcript).AppendPoint")
-	} else {
-		c.Saw(core.FnName(fn))
-		enc := c.f7one(fn, "point.Bytes()", staticIs("/banderwagon", "Element", "Bytes"))
-		am := c.f7one(fn, "AppendMessage", staticIs("/common", "Transcript", "AppendMessage"))
-		if enc != nil && am != nil {
-			ok := core.PathOf(enc.Common().Args[0]) == "*(p:point)" && core.PathOf(am.Common().Args[2]) == "p:label" &&
-				core.FlowsTo(enc.(ssa.Value), am.Common().Args[1], nil) && wholeSlice(am.Common().Args[1])
-			c.Check(ok, "F7", "AppendPoint:canonical-compressed", am.Pos(), "AppendPoint does not absorb the whole canonical compressed encoding (Element.Bytes) of its point under its label", "message = point.Bytes()[:]", "label = parameter")
-			count()
-		}
 	}
 
 	// (d) NewTranscript
@@ -290,7 +202,7 @@ func RuleF7(c *Ctx) {
 			count()
 		}
 	}
-	c.FloorN("F7", 14, facts, "ordering/dataflow facts")
+	c.FloorN("F7", 12, facts, "stream/ordering/dataflow facts")
 }
 
 // wholeSlice: v is `x[:]` of a local array (no bounds), i.e. the complete encoding.
